@@ -420,6 +420,10 @@ class TomogramSimulator:
     ) -> NDArray[np.float32]:
         if isinstance(image, ImageProvider):
             img = image.provide(self.scale)
+            if img.dtype != np.float32:
+                # same as for an array given to add_molecules: an integer image would be
+                # interpolated in its integer dtype
+                img = img.astype(np.float32)
         else:
             img = image
 
